@@ -2,7 +2,7 @@
 # Model of the unified-diff text encoding (C30)
 
 Source modelled: `crates/radicle-cli/src/git/unified_diff.rs` as on `/repo` main, i.e. *with*
-`fix: cli: keep trailing whitespace of diff lines when encoding`:
+`fix: cli: keep trailing whitespace of diff lines when encoding` and the hunk-header fix:
 
 * `Encode`/`Decode` for `HunkHeader`;
 * `Encode`/`Decode` for `Modification` (a diff line);
@@ -36,6 +36,12 @@ def trimEnd (t : Text) : Text := dropEndWhile isWs t
 
 /-- `str::trim_end_matches('\n')` -/
 def trimEndNl (t : Text) : Text := dropEndWhile (· == '\n') t
+
+/-- `s.strip_suffix('\n').unwrap_or(s)` -/
+def stripSuffixNl (t : Text) : Text :=
+  match t.reverse with
+  | '\n' :: r => r.reverse
+  | _ => t
 
 /-- `str::strip_prefix` -/
 def stripPrefix : Text → Text → Option Text
@@ -140,7 +146,7 @@ def decodeHeaderLine (line : Text) : Res HunkHeader :=
             let s := match s with
               | ' ' :: r => r
               | _ => s
-            .ok { oldNo, oldSize, newNo, newSize, text := s }
+            .ok { oldNo, oldSize, newNo, newSize, text := stripSuffixNl s }
 
 /-- `<HunkHeader as Decode>::decode` -/
 def decodeHeader : Reader → Res (HunkHeader × Reader)
@@ -276,8 +282,8 @@ def decodeHunk (r : Reader) : Res (Hunk × Reader) :=
       | .err e, _ => .err e
       | _, .err e => .err e
 
-/-- `<Hunk<Modification> as Encode>::encode`: the header without trailing whitespace, then the lines. -/
+/-- `<Hunk<Modification> as Encode>::encode`: the header without its trailing newlines, then the lines. -/
 def Hunk.encode (h : Hunk) : Text :=
-  trimEnd h.header ++ ['\n'] ++ (h.lines.map Mod.encode).flatten
+  trimEndNl h.header ++ ['\n'] ++ (h.lines.map Mod.encode).flatten
 
 end HeartwoodModel.Diff
